@@ -1,6 +1,6 @@
 (** C19 — tables fit the terminal and show all the data. *)
 From Coq Require Import List ZArith NArith Bool Lia Arith.
-From AG Require Import Str F64 Value Json Expr Ops Pipeline Display Layout_proofs.
+From AG Require Import Str F64 Value Json Expr Ops Pipeline Display Layout_proofs Record_proofs.
 Import ListNotations.
 Open Scope nat_scope.
 
@@ -59,3 +59,49 @@ Print Assumptions C19_height_clip.
 (** record output ([name=value] columns) is checked on the real binary only: format_record_as_columns
     keeps per-process width memory that the model does not carry *)
 Definition C19_records_are_checked_by_the_harness : Prop := True.
+
+(** *** record output ([name=value] columns) *)
+
+(** every field of the row appears in the printed line as [name=value] *)
+Theorem C19_record_shows_every_field : forall (st st' : rp_state) (r : record) (line k : str) (v : value) (s : str),
+  format_record st r = Ok (st', line) ->
+  get k (rdata r) = Some v -> In k (map fst (rdata r)) -> render v = Ok s ->
+  exists pre post, line = pre ++ field_token k s ++ post.
+Proof. exact record_shows_every_field. Qed.
+Print Assumptions C19_record_shows_every_field.
+
+(** the column order is only ever appended to (new names, sorted), never permuted; it restarts
+    only when a terminal would overflow *)
+Theorem C19_record_order_step : forall (st st' : rp_state) (r : record) (line : str),
+  format_record st r = Ok (st', line) ->
+  rp_order st' = rp_order st ++ new_columns (rp_order st) (rdata r)
+  \/ (rp_term st <> None /\ rp_order st' = new_columns [] (rdata r)).
+Proof. exact record_order_step. Qed.
+Print Assumptions C19_record_order_step.
+
+(** without a terminal the order is stable across the whole stream *)
+Theorem C19_record_order_stable : forall (st : rp_state) (rs : list record) (sts : list rp_state),
+  rp_term st = None -> run_states st rs = Ok sts ->
+  forall i j si sj, i <= j -> nth_error sts i = Some si -> nth_error sts j = Some sj ->
+  exists more, rp_order sj = rp_order si ++ more.
+Proof. exact record_order_stable_no_terminal. Qed.
+Print Assumptions C19_record_order_stable.
+
+Theorem C19_record_order_nodup : forall (st st' : rp_state) (r : record) (line : str),
+  NoDup (rp_order st) -> NoDup (map fst (rdata r)) ->
+  format_record st r = Ok (st', line) -> NoDup (rp_order st').
+Proof. exact record_order_nodup. Qed.
+Print Assumptions C19_record_order_nodup.
+
+(** `self.column_widths[column_name]` cannot fail: every ordered column has a width *)
+Theorem C19_record_no_panic : forall (st : rp_state) (r : record),
+  rp_inv st -> format_record st r <> Panic /\
+  (forall st' line, format_record st r = Ok (st', line) -> rp_inv st').
+Proof. exact record_no_panic. Qed.
+Print Assumptions C19_record_no_panic.
+
+Example C19_record_example :
+  let d := [(lit "a", VInt 1); (lit "b", VStr (lit "x y"))] in
+  format_record (mkRP [] [] None) (mkRec d (lit "raw")) =
+  Ok (mkRP [(lit "a", 9); (lit "b", 11)] [lit "a"; lit "b"] None, lit "[a=1]        [b=x y]").
+Proof. exact record_example. Qed.
